@@ -121,5 +121,73 @@ pub open spec fn has_keys(d: Doc, keys: Seq<(String, bool)>) -> bool { forall|i:
             //# Q5-prefix-order
             __v1@ == q.order_by@ && ret == lex_cmp(*a, *b, q.order_by@, __i1 as int) && has_keys(*a, q.order_by@) && has_keys(*b, q.order_by@),
 //@@ end
+// ---- comparison operators of the in-memory filter (C10: "exactly the records satisfying its AND/OR filter", same answers as SQLite)
+pub mod serde_json { pub use super::JsonValue as Value; pub use super::Number; }
+//@@ extract file=acts/src/store/query.rs item="enum ExprOp" name=ExprOp
+//@@ opt structural
+//@@ end
+pub struct Expr { pub op: ExprOp }
+pub uninterp spec fn json_eq(a: JsonValue, b: JsonValue) -> bool;        // serde_json's PartialEq on values that are not both numbers
+impl PartialEq for JsonValue {
+    #[verifier::external_body]
+    fn eq(&self, other: &Self) -> (r: bool) ensures r == json_eq(*self, *other) { unimplemented!() }
+}
+// R7: `ord == Some(Ordering::X)` / `ord != Some(Ordering::X)` on Option<Ordering> (derive(PartialEq): structural equality)
+#[verifier::external_body]
+pub fn ord_is(o: &Option<Ordering>, x: Ordering) -> (r: bool) ensures r == (*o == Some(x)) { unimplemented!() }
+// R7: `l == r` / `l != r` on &serde_json::Value
+#[verifier::external_body]
+pub fn json_same(a: &JsonValue, b: &JsonValue) -> (r: bool) ensures r == json_eq(*a, *b) { unimplemented!() }
+pub uninterp spec fn float_ord(a: int, b: int) -> Option<Ordering>;       // f64::partial_cmp on the doubles two numbers convert to
+// R7: `a.partial_cmp(&b)` on f64
+#[verifier::external_body]
+pub fn f64_partial_cmp(a: f64, b: f64) -> (r: Option<Ordering>) ensures r == float_ord(f64_of(a), f64_of(b)) { unimplemented!() }
+impl Number {
+    #[verifier::external_body]
+    pub fn as_u64(&self) -> (r: Option<u64>)
+        ensures match self@ { NumV::I(i) => (i >= 0 ==> r == Some(i as u64)) && (i < 0 ==> r is None), NumV::U(u) => r == Some(u as u64) && i64::MAX < u <= u64::MAX, NumV::F(_) => r is None } { unimplemented!() }
+    #[verifier::external_body]
+    pub fn is_u64(&self) -> (r: bool) ensures r == ((self@ is I && self@->I_0 >= 0) || self@ is U) { unimplemented!() }
+}
+// oracle: two JSON numbers compare by their numeric value (integers exactly, anything involving a float as doubles)
+pub open spec fn num_ord(a: NumV, b: NumV) -> Option<Ordering> {
+    match (a, b) {
+        (NumV::I(i), NumV::I(j)) => Some(int_cmp(i, j)),
+        (NumV::U(i), NumV::U(j)) => Some(int_cmp(i, j)),
+        (NumV::I(_), NumV::U(_)) => Some(Ordering::Less),
+        (NumV::U(_), NumV::I(_)) => Some(Ordering::Greater),
+        _ => float_ord(num_real(a), num_real(b)),
+    }
+}
+pub open spec fn op_holds(op: ExprOp, l: JsonValue, r: JsonValue) -> bool {
+    if l is Number && r is Number {
+        let o = num_ord(l->Number_0@, r->Number_0@);
+        match op {
+            ExprOp::EQ => o == Some(Ordering::Equal), ExprOp::NE => o != Some(Ordering::Equal),
+            ExprOp::LT => o == Some(Ordering::Less), ExprOp::LE => o == Some(Ordering::Less) || o == Some(Ordering::Equal),
+            ExprOp::GT => o == Some(Ordering::Greater), ExprOp::GE => o == Some(Ordering::Greater) || o == Some(Ordering::Equal),
+            _ => false,
+        }
+    } else { match op { ExprOp::EQ => json_eq(l, r), ExprOp::NE => !json_eq(l, r), _ => false } }
+}
+//@@ extract file=acts/src/store/db/mem/collect.rs item="fn cmp_number" name=cmp_number
+//@@ rw R7 `v1 . partial_cmp ( & v2 )` => `f64_partial_cmp(v1, v2)`
+//@@ spec
+    ensures
+        //# Q2-two-numbers-are-ordered-by-their-value
+        ret == num_ord(v1@, v2@),
+//@@ end
+impl Expr {
+//@@ extract file=acts/src/store/db/mem/collect.rs in="impl Expr" item="fn op" name=Expr::op
+//@@ rw R7 `l != r` => `!json_same(l, r)`
+//@@ rw R7 `l == r` => `json_same(l, r)`
+//@@ rw R7 `ord == Some ( Ordering :: $V:id )` => `ord_is(&ord, Ordering::$V)`
+//@@ rw R7 `ord != Some ( Ordering :: $V:id )` => `!ord_is(&ord, Ordering::$V)`
+//@@ spec
+    ensures
+        //# Q2-a-comparison-holds-iff-it-holds-numerically-for-numbers-and-by-equality-otherwise
+        ret == op_holds(self.op, *l, *r),
+//@@ end
+}
 } // verus!
 fn main() {}
